@@ -331,7 +331,26 @@ def find_octopus_base(
             )
             next_lcas.extend(res)
         lcas = next_lcas[:]
-    return lcas
+    # The union of the pairwise results may name a commit twice or contain an
+    # ancestor of another element; like git's reduce_heads(), keep only the
+    # maximal ones.
+    unique = list(dict.fromkeys(lcas))
+    return [
+        ca
+        for ca in unique
+        if not any(
+            other != ca
+            and _find_lcas(
+                lookup_parents,
+                other,
+                [ca],
+                lookup_stamp,
+                shallows=parents_provider.shallows,
+            )
+            == [ca]
+            for other in unique
+        )
+    ]
 
 
 def can_fast_forward(repo: "BaseRepo", c1: ObjectID, c2: ObjectID) -> bool:
